@@ -13,9 +13,11 @@ import (
 	"mime/multipart"
 	netmail "net/mail"
 	"path/filepath"
+	"strconv"
 	"strings"
 
 	"verif/internal/ev"
+	"verif/internal/faultio"
 	"verif/internal/gen"
 	"verif/internal/mimeread"
 )
@@ -279,6 +281,9 @@ func expectedLeaves(s *gen.MsgSpec) []leafExpect {
 
 type c01Case struct {
 	Spec gen.MsgSpec `json:"spec"`
+	// Before: what happened to the assembled message before the judged render: "render" = rendered once already,
+	// "fail:<k>" = a render whose destination failed after k bytes (the caller retries after a failed write)
+	Before []string `json:"before,omitempty"`
 }
 
 // checkRendered is the C01 oracle over one rendered message.
@@ -488,6 +493,18 @@ func runC01Case(r *ev.Run, c c01Case, env *gen.Env) {
 		r.HarnessError(fmt.Sprintf("C01: cannot build spec %s: %v", s.ID, err))
 		return
 	}
+	for _, b := range c.Before {
+		func() {
+			defer func() { _ = recover() }()
+			if k, ok := strings.CutPrefix(b, "fail:"); ok {
+				lim, _ := strconv.ParseInt(k, 10, 64)
+				_, _ = m.WriteTo(&faultio.Sink{Limit: lim})
+				r.Count("failed_renders_before_the_judged_one", 1)
+			} else {
+				_, _ = m.WriteTo(io.Discard)
+			}
+		}()
+	}
 	var buf bytes.Buffer
 	var werr error
 	func() {
@@ -586,6 +603,17 @@ func runC01(r *ev.Run, rep *ev.ReplayDoc) ev.Summary {
 			s = genSpec(rng, fmt.Sprintf("c01-r%d", i), "", np, ne, na)
 		}
 		c := c01Case{Spec: s}
+		if i >= enumN && rng.Intn(5) == 0 {
+			// the message has a history: an earlier complete render, or one that failed at some offset
+			if rng.Intn(3) == 0 {
+				c.Before = []string{"render"}
+			} else {
+				c.Before = []string{fmt.Sprintf("fail:%d", gen.Pick(rng, []int{0, 100, 400, 700, 1000, 1500, 2200, 3000, 5000, 9000, rng.Intn(12000)}))}
+				if rng.Intn(4) == 0 {
+					c.Before = append(c.Before, fmt.Sprintf("fail:%d", rng.Intn(6000)))
+				}
+			}
+		}
 		if i%997 == 0 {
 			r.Sample(map[string]any{"shape": s.Shape(), "subject": s.Subject})
 		}
